@@ -152,7 +152,7 @@ inline bool interpret(const Desc &ds, const std::vector<std::vector<ld>> &in, co
     } else if (tk == T_SMUL || tk == T_SADD || tk == T_SSUB) {
       ld c = (ld)ds.code[++pc]; Mat &a = st.back();
       for (size_t i = 0; i < a.v.size(); ++i) {
-        if (tk == T_SMUL) { a.v[i] *= c; a.e[i] = c * a.e[i] + u * std::fabs(a.v[i]); }
+        if (tk == T_SMUL) { a.v[i] *= c; a.e[i] = std::fabs(c) * a.e[i] + u * std::fabs(a.v[i]); }   // c = -1 encodes unary minus
         else { ld x = a.v[i]; a.v[i] = tk == T_SADD ? x + c : x - c; a.e[i] += u * (std::fabs(x) + c); }
       }
       plain(a);
